@@ -32,6 +32,10 @@ def seq(*fs):
 
 
 X = "rand_xoshiro/src/"
+J = "rand_jitter/src/lib.rs"
+XS = "rand_xorshift/src/lib.rs"
+IS = "rand_isaac/src/isaac.rs"
+HC = "rand_hc/src/hc128.rs"
 HWBAD5 = """        let mut chunks = dest.chunks_exact_mut(8);
         for chunk in &mut chunks {
             chunk.copy_from_slice(&self.next_u64().to_le_bytes());
@@ -103,6 +107,34 @@ CONTROLS = [
     ("fire", "fill_bytes hand-written, 5-byte tail sliced from 4 bytes", rep(X + "xoshiro256plusplus.rs", "        fill_bytes_via_next(self, dest);", HWBAD5), ["C14", "C05"]),
     ("fire", "memaccess index differs under feature=log (inside the loop)", rep("rand_jitter/src/lib.rs", "            mem[index] = mem[index].wrapping_add(1);\n", "            #[cfg(feature = \"log\")]\n            let index = index ^ 1;\n            mem[index] = mem[index].wrapping_add(1);\n"), ["C18"]),
     ("fire", "jitter fill_bytes straight from gen_entropy, half kept", rep("rand_jitter/src/lib.rs", "        impls::fill_bytes_via_next(self, dest)\n", '        let mut chunks = dest.chunks_exact_mut(8);\n        for chunk in &mut chunks {\n            chunk.copy_from_slice(&self.gen_entropy().to_le_bytes());\n        }\n        impls::fill_bytes_via_next(self, chunks.into_remainder())\n'), ["C16", "C05"]),
+    # ------------------------------------------------------------------ second batch of behaviour-preserving edits
+    ("silent", "S2 jump outer loop as JUMP.iter() (u64x4)", rep(X + "common.rs", "        let mut s3 = 0;\n        for j in &JUMP {\n            for b in 0..64 {", "        let mut s3 = 0;\n        for j in JUMP.iter() {\n            for b in 0..64 {"), ["C06", "C14"]),
+    ("silent", "S2 jump indexed loop and shifted bit test (u64x2)", rep(X + "common.rs", "        for j in &JUMP {\n            for b in 0..64 {\n                if (j & 1 << b) != 0 {\n                    s0 ^= $self.s0;", "        for i in 0..JUMP.len() {\n            let j = JUMP[i];\n            for b in 0..64 {\n                if (j >> b) & 1 == 1 {\n                    s0 ^= $self.s0;"), ["C06", "C14"]),
+    ("silent", "S2 ++ scrambler with the outer sum commuted", rep(X + "common.rs", "$x.wrapping_add($y).rotate_left($rot).wrapping_add($x)", "$x.wrapping_add($x.wrapping_add($y).rotate_left($rot))"), ["C01", "C14"]),
+    ("silent", "S2 SplitMix64 step through a local", seq(
+        rep(X + "splitmix64.rs", "        self.x = self.x.wrapping_add(PHI);\n        let mut z = self.x;\n        z = (z ^ (z >> 30))", "        let mut z = self.x.wrapping_add(PHI);\n        self.x = z;\n        z = (z ^ (z >> 30))"),
+        rep(X + "splitmix64.rs", "        z ^ (z >> 31)", "        (z >> 31) ^ z")), ["C01", "C05", "C09", "C08"]),
+    ("silent", "S2 xorshift xor chain regrouped", rep(XS, "self.w = w_ ^ (w_ >> 19) ^ (t ^ (t >> 8));", "self.w = (t >> 8) ^ t ^ (w_ >> 19) ^ w_;"), ["C04", "C07", "C14"]),
+    ("silent", "S2 xorshift zero test via iter().all", rep(XS, "        if seed_u32 == [0; 4] {", "        if seed_u32.iter().all(|&v| v == 0) {"), ["C04", "C08", "C14"]),
+    ("silent", "S2 xorshift redraw test via iter().any", rep(XS, "            rng.fill_bytes(b.as_mut());\n            if b != [0; 16] {\n                break;\n            }", "            rng.fill_bytes(b.as_mut());\n            if b.iter().any(|&v| v != 0) {\n                break;\n            }"), ["C08", "C09", "C14"]),
+    ("silent", "S2 ISAAC ind with a mask instead of %", rep(IS, "let index = (v >> amount).0 as usize % RAND_SIZE;", "let index = ((v.0 >> amount) as usize) & (RAND_SIZE - 1);"), ["C03", "C14"]),
+    ("silent", "S2 ISAAC generate first half with step_by", rep(IS, "        let mut m2 = MIDPOINT;\n        for i in (0..MIDPOINT / 4).map(|i| i * 4) {", "        let mut m2 = MIDPOINT;\n        for i in (0..MIDPOINT).step_by(4) {"), ["C03", "C14"]),
+    ("silent", "S2 ISAAC init with step_by", rep(IS, "            for i in (0..RAND_SIZE / 8).map(|i| i * 8) {", "            for i in (0..RAND_SIZE).step_by(8) {"), ["C03", "C09", "C14"]),
+    ("silent", "S2 HC-128 h1 bytes via to_le_bytes", rep(HC, "            let a = p[i12] as u8;\n            let c = (p[i12] >> 16) as u8;\n            q[a as usize]", "            let bytes = p[i12].to_le_bytes();\n            let a = bytes[0];\n            let c = bytes[2];\n            q[a as usize]"), ["C02", "C14"]),
+    ("silent", "S2 HC-128 f1 with shifts for one rotate", rep(HC, "x.rotate_right(7) ^ x.rotate_right(18) ^ (x >> 3)", "((x >> 7) | (x << 25)) ^ x.rotate_left(14) ^ (x >> 3)"), ["C02", "C14"]),
+    ("silent", "S2 jitter memaccess index with a mask", rep(J, "index = (index + MEMORY_BLOCKSIZE - 1) % MEMORY_SIZE;", "index = (index + MEMORY_BLOCKSIZE - 1) & (MEMORY_SIZE - 1);"), ["C12", "C14", "C18"]),
+    ("silent", "S2 jitter lfsr bit extraction by shift and mask", rep(J, "            for i in 1..65 {\n                let mut tmp = time << (64 - i);\n                tmp >>= 64 - 1;\n", "            for i in 0..64 {\n                let tmp = (time >> i) & 1;\n"), ["C12", "C15", "C14"]),
+    ("silent", "S2 jitter stuck disjunction reordered", rep(J, "current_delta == 0 || delta2 == 0 || delta3 == 0", "delta3 == 0 || delta2 == 0 || current_delta == 0"), ["C12", "C13", "C14", "C16"]),
+    ("silent", "S2 jitter random_loop_cnt mask by shifting", rep(J, "        let mask = (1 << n_bits) - 1;", "        let mask = !(!0u64 << n_bits);"), ["C12", "C14"]),
+    ("silent", "S2 jitter stuck loop as loop/break", rep(J, "            while self.measure_jitter(&mut ec).is_none() {}", "            loop {\n                if self.measure_jitter(&mut ec).is_some() {\n                    break;\n                }\n            }"), ["C12", "C16", "C14", "C15"]),
+    ("silent", "S2 xoroshiro128++ lower half via mask", rep(X + "xoroshiro128plusplus.rs", "self.next_u64() as u32", "(self.next_u64() & 0xffff_ffff) as u32"), ["C05", "C14"]),
+    ("silent", "S2 Seed512 zero test via !any", rep(X + "common.rs", "        if $seed.iter().all(|&x| x == 0) {", "        if !$seed.iter().any(|&x| x != 0) {"), ["C01", "C08", "C09"]),
+    ("silent", "S2 XorShiftRng hand-written Clone", seq(
+        rep(XS, "#[derive(Clone, PartialEq, Eq)]\n#[cfg_attr(feature = \"serde\", derive(Serialize, Deserialize))]\npub struct XorShiftRng {", "#[derive(PartialEq, Eq)]\n#[cfg_attr(feature = \"serde\", derive(Serialize, Deserialize))]\npub struct XorShiftRng {"),
+        rep(XS, "// Custom Debug implementation that does not expose the internal state\n", "impl Clone for XorShiftRng {\n    fn clone(&self) -> Self {\n        XorShiftRng { x: self.x, y: self.y, z: self.z, w: self.w }\n    }\n}\n\n// Custom Debug implementation that does not expose the internal state\n")), ["C10", "C19", "C14", "C11"]),
+    ("silent", "S2 XorShiftRng Debug via debug_struct", rep(XS, "        write!(f, \"XorShiftRng {{}}\")", "        f.debug_struct(\"XorShiftRng\").finish()"), ["C17", "C14"]),
+    ("silent", "S2 JitterRng Debug via write_str", rep(J, "        write!(f, \"JitterRng {{}}\")", "        f.write_str(\"JitterRng {}\")"), ["C17", "C14"]),
+    ("silent", "S2 xoshiro256++ state accessor added", rep(X + "xoshiro256plusplus.rs", "impl Xoshiro256PlusPlus {\n", "impl Xoshiro256PlusPlus {\n    /// Number of state words.\n    pub fn state_words(&self) -> usize {\n        self.s.len()\n    }\n\n"), ["C14", "C19", "C18", "C10"]),
 ]
 
 
@@ -126,24 +158,31 @@ def run_control(kind, name, edit, checks):
 
 
 def main():
-    pats = sys.argv[1:]
+    from concurrent.futures import ThreadPoolExecutor
+    pats = [a for a in sys.argv[1:] if not a.startswith("-j")]
+    jobs = next((int(a[2:]) for a in sys.argv[1:] if a.startswith("-j")), 1)
     bad = 0
     t0 = time.time()
-    for kind, name, edit, checks in CONTROLS:
-        if pats and not any(p in name or p == kind for p in pats):
-            continue
+    todo = [c for c in CONTROLS if not pats or any(p in c[1] or p == c[0] for p in pats)]
+
+    def one(c):
+        kind, name, edit, checks = c
         try:
-            res = run_control(kind, name, edit, checks)
+            return c, run_control(kind, name, edit, checks), None
         except Exception as e:
-            print("ERROR  %-6s %-50s %s" % (kind, name, e))
-            bad += 1
-            continue
-        for c, (rc, nv, detail) in res.items():
-            ok = (rc != 0 and nv > 0) if kind == "fire" else (rc == 0 and nv == 0)
-            if not ok:
+            return c, None, e
+    with ThreadPoolExecutor(max_workers=jobs) as ex:
+        for (kind, name, edit, checks), res, err in ex.map(one, todo):
+            if err is not None:
+                print("ERROR  %-6s %-50s %s" % (kind, name, err))
                 bad += 1
-            print("%-5s %-6s %-52s %s rc=%d violations=%d %s" % ("ok" if ok else "WRONG", kind, name, c, rc, nv,
-                                                                 (detail[0][:150] if detail and (not ok or kind == "fire") else "")))
+                continue
+            for c, (rc, nv, detail) in res.items():
+                ok = (rc != 0 and nv > 0) if kind == "fire" else (rc == 0 and nv == 0)
+                if not ok:
+                    bad += 1
+                print("%-5s %-6s %-52s %s rc=%d violations=%d %s" % ("ok" if ok else "WRONG", kind, name, c, rc, nv,
+                                                                     (detail[0][:150] if detail and (not ok or kind == "fire") else "")), flush=True)
     print("controls done in %.0fs, %d unexpected outcome(s)" % (time.time() - t0, bad))
     return 1 if bad else 0
 
